@@ -17,21 +17,23 @@ StepRec(k, affectedPos, st) ==
 
 MCInit == Init /\ hist = <<[k |-> "Init", inval |-> <<>>, start |-> 0] @@ Proj(Cur)>>
 
+Bound == Len(hist) <= MaxSteps
+
 MCApply ==
-  \E ns \in Sizes : \E sp \in SUBSET uns : \E cr \in SUBSET {i \in Pool : size <= i /\ i < ns} :
+  Bound /\ \E ns \in Sizes : \E sp \in SUBSET uns : \E cr \in SUBSET {i \in Pool : size <= i /\ i < ns} :
     /\ ApplyBlock(sp, cr, ns)
     /\ hist' = Append(hist, StepRec("Apply", ApplyAffected(Cur, sp, ns), ApplyBlockF(Cur, sp, cr, ns)))
 MCRewind ==
-  \E ns \in Sizes : \E rs \in SUBSET ({i \in Pool : i < ns} \ uns) :
+  Bound /\ \E ns \in Sizes : \E rs \in SUBSET ({i \in Pool : i < ns} \ uns) :
     /\ RewindTo(ns, rs)
     /\ hist' = Append(hist, StepRec("Rewind", RewindAffected(ns, rs), RewindToF(Cur, ns, rs)))
-MCReopen == Reopen /\ hist' = Append(hist, StepRec("Reopen", {}, ReopenF(Cur)))
+MCReopen == Bound /\ Reopen /\ hist' = Append(hist, StepRec("Reopen", {}, ReopenF(Cur)))
 
-MCNext == Len(hist) <= MaxSteps /\ (MCApply \/ MCRewind \/ MCReopen)
+MCNext == MCApply \/ MCRewind \/ MCReopen
 MCSpec == MCInit /\ [][MCNext]_mcvars
 
 \* one line per complete behaviour
 Emit == Len(hist) = EmitAt => PrintT(<<"BMBEH", ToJson(hist)>>)
-\* root term of the chunk MMR for n = 0..5 chunks (entry n+1)
-ASSUME PrintT(<<"BMROOT", ToJson([n \in 1..6 |-> RootTermN(n - 1)])>>)
+\* root term of the chunk MMR for n = 0..8 chunks (entry n+1)
+ASSUME PrintT(<<"BMROOT", ToJson([n \in 1..9 |-> RootTermN(n - 1)])>>)
 ==========================================================================
